@@ -352,6 +352,12 @@ func main() {
 			if len(r.Violations) > 0 {
 				s.DirectViolation(c.ID, "stress: "+r.Violations[0], r.Violations)
 			}
+			if c.Backend == "redis" {
+				if v := slowPollCase(); len(v) > 0 {
+					s.DirectViolation(c.ID, "slow poll: "+v[0], v)
+				}
+				s.Count("fam:slow-poll-answer-redis")
+			}
 			s.Extra["stress_"+c.Backend] = r.Summary
 		}
 	}
